@@ -48,7 +48,7 @@ TOKENS: list[bytes] = [
     b"powershell.exe", b"-e", b"-enc", b"-ec", b"-encodedcommand", b"/e", b"/enc", b"-w hidden", b"-nop",
     b"-Command", b"for /f ", b" in ('", b"') do ", b"&#", b"&#x", b"&#x41;", b"&#65;", b"&#13;", b"&#10;", b"&#xD;",
     b"&#xA", b"&#xzz;", b"&#256;", b"&#099;", b";", b"chr(", b"chrw(", b"ChrB(", b"chr(65)", b"chr(99999)",
-    b"chr(55296)", b"unescape('", b"unescape('%41')", b"%41", b"%4", b"%zz", b"%2F", b"%2e", b"%", b"atob(\"", b"atob('",
+    b"chr(55296)", b"unescape('", b"unescape('%41')", b"unescape('%u9090%uD9EB%u5B74')", b"%uD800", b"%uDC00%uD800", b"%u0041", b"%41", b"%4", b"%zz", b"%2F", b"%2e", b"%", b"atob(\"", b"atob('",
     b"Base64Decode(\"", b"FromBase64String('", b"[System.Convert]::", b"FromHexString('", b"')", b"\")",
     b"-bxor ", b"-bxor", b"-xor", b" -bxor 35", b" -bxor 300", b"0", b"1", b"7", b"9", b"10", b"35", b"127", b"128",
     b"255", b"256", b"300", b"999", b"0x41", b"0x7f", b"0x", b"http://", b"https://", b"ftp://", b"HtTp://", b"hxxp://",
